@@ -409,6 +409,31 @@ def run(tier: str) -> int:
             if o.status == "violation":
                 run_.fail(f"{PROP}:math-table:{name}:{operand[2]}:{o.bucket.split(':')[1]}", f"math function {name} on a {operand[2]} operand: {o.what}", o.replay,
                           bucket=f"{PROP}:math-table:{name}:{o.bucket.split(':')[1]}")
+    # (1c) array declarations: every small shape x every awkward literal (single-entry and multi-dimensional initialisers take
+    # different paths in the formatters)
+    narr = 0
+    awkward = [1.0000000000000004, 1.427734375, 2.2250738585072014e-308, 5e-324, 1.7976931348623157e308, 123456789.12345679, -0.30000000000000004, 1 / 3, 0.1 + 0.2]
+
+    def nest(flat, shape):
+        if len(shape) == 1:
+            return list(flat)
+        step = len(flat) // shape[0]
+        return [nest(flat[i * step:(i + 1) * step], shape[1:]) for i in range(shape[0])]
+
+    for shape in ([1], [1, 1], [1, 1, 1, 1], [2], [1, 2], [2, 1], [1, 1, 2, 3], [3, 1, 1, 1]):
+        n = int(np.prod(shape))
+        for k, v in enumerate(awkward):
+            flat = [awkward[(k + j) % len(awkward)] for j in range(n)]
+            for dt in ("REAL", "SCALAR"):
+                for const in (True, False):
+                    stmts = [["ArrDecl", "FE3_C0_D01_Q083", dt, shape, nest(flat, shape), const]]
+                    o = outcome_for_stmts(stmts)
+                    narr += 1
+                    run_.case(o.case_id, o.status == "ok", sample=None, classes=["array-decl"])
+                    if o.status == "violation":
+                        run_.fail(f"{PROP}:array-decl:{shape}:{v!r}:{dt}:{o.bucket.split(':')[1]}", f"array declaration of shape {shape}: {o.what}", o.replay,
+                                  bucket=f"{PROP}:array-decl:{'single-entry' if n == 1 else 'multi-entry'}:{len(shape)}d:{o.bucket.split(':')[1]}")
+    run_.extra["array_declarations_enumerated"] = narr
     run_.extra["math_functions_enumerated"] = nmath
     run_.extra["depth2_triples_enumerated"] = len(trees)
     run_.extra["depth2_triples_round_tripped"] = triples_ok
